@@ -143,7 +143,7 @@ def step (st : State) (ws : List String) : State × String :=
         -- way. Both sides of the comparison print that pair of outcomes in this one situation.
         let hasClosed := s'.entries.any (fun p => p.2.closed)
         let isListed := s'.entries.any (fun p => !p.2.closed && p.2.loaded && listed p.2.store ⟨i, n, c⟩)
-        let shown := if hasClosed && isListed && status != .notRevoked && !spawn then "revoked|error" else statusName status
+        let shown := if hasClosed && isListed && status != .notRevoked then "revoked|error" else statusName status
         -- a spawned background refresh races with the observer: the snapshot is taken by the following `tick`
         ({ s := s' }, s!"{shown} spawn={spawn} {if spawn then "E[*]" else snapshot s'}")
       | none => (st, "bad-op")
